@@ -946,7 +946,33 @@ def _wrapper_results(prob):
     from mphys.core import MPhysVariables as MV
     with quiet():
         prob.run_model()
-    return np.array(prob.get_val(MV.Aerodynamics.Surface.LOADS)).copy(), float(prob.get_val("CL")[0]), float(prob.get_val("CD")[0])
+    return (np.array(prob.get_val(MV.Aerodynamics.Surface.LOADS)).copy(), float(prob.get_val("CL")[0]), float(prob.get_val("CD")[0]),
+            np.array(prob.get_val("CM")).ravel().copy())
+
+
+def _mphys_builder_loads(surfaces, flow, options):
+    """nodal forces of the coupling group the MPhys builder hands out for the given user options (serial run: OpenMDAO's FakeComm gets
+    the two mpi4py methods MPhys' DistributedConverter calls)"""
+    import openmdao.api as om
+    from openmdao.utils.mpi import FakeComm
+    from mphys.core import MPhysVariables as MV
+    from openaerostruct.mphys.aero_builder import AeroBuilder
+    if not hasattr(FakeComm, "Get_rank"):
+        FakeComm.Get_rank = lambda self: 0
+        FakeComm.bcast = lambda self, obj, root=0: obj
+    b = AeroBuilder(surfaces, options=options)
+    prob = om.Problem(reports=False)
+    ivc = om.IndepVarComp()
+    ivc.add_output(MV.Aerodynamics.Surface.COORDINATES, val=np.concatenate([s["mesh"].ravel() for s in surfaces]), units="m", distributed=True)
+    ivc.add_output(MV.Aerodynamics.FlowConditions.ANGLE_OF_ATTACK, val=flow["alpha"], units="deg")
+    ivc.add_output(MV.Aerodynamics.FlowConditions.YAW_ANGLE, val=0.0, units="deg")
+    ivc.add_output(MV.Aerodynamics.FlowConditions.MACH_NUMBER, val=flow["Mach_number"])
+    ivc.add_output("v", val=flow["v"], units="m/s"); ivc.add_output("rho", val=flow["rho"], units="kg/m**3")
+    prob.model.add_subsystem("ivc", ivc, promotes=["*"])
+    prob.model.add_subsystem("cpl", b.get_coupling_group_subsystem(), promotes=["*"])
+    with quiet():
+        prob.setup(); prob.run_model()
+    return np.array(prob.get_val(MV.Aerodynamics.Surface.LOADS)).ravel().copy()
 
 
 @oracle("C19", "mphys_wrapper_equals_native")
@@ -964,10 +990,12 @@ def c19_mphys(rng, tier):
     def native(surfs):
         p = pipelines.run_aero_point(surfs, flow, compressible=compressible)
         f = np.concatenate([np.array(p.get_val("pt.aero_states.%s_mesh_point_forces" % s["name"])).ravel() for s in surfs])
-        return f, float(p.get_val("pt.CL")[0]), float(p.get_val("pt.CD")[0])
+        return f, float(p.get_val("pt.CL")[0]), float(p.get_val("pt.CD")[0]), np.array(p.get_val("pt.CM")).ravel().copy()
 
     def differs(a, b):
-        return relerr(a[0], b[0]) > 1e-9 or abs(a[1] - b[1]) > 1e-9 * max(abs(b[1]), 1e-9) or abs(a[2] - b[2]) > 1e-9 * max(abs(b[2]), 1e-9)
+        # forces, CL, CD and CM (normalised by the mean aerodynamic chord of the first *listed* surface)
+        return relerr(a[0], b[0]) > 1e-9 or abs(a[1] - b[1]) > 1e-9 * max(abs(b[1]), 1e-9) or abs(a[2] - b[2]) > 1e-9 * max(abs(b[2]), 1e-9) \
+            or np.max(np.abs(a[3] - b[3])) > 1e-8 * max(np.max(np.abs(b[3])), 1e-9)
     order2 = [surfaces[1], surfaces[0]]
     n1 = native(surfaces); n2 = native(order2)
     w1 = _mphys_wrapper(surfaces, flow, compressible)
@@ -978,6 +1006,14 @@ def c19_mphys(rng, tier):
     r2 = _wrapper_results(w2)
     if differs(r2, n2):
         out.append(_fail("MPhys wrapper groups differ from the native AeroPoint (permuted surface list)", [r2[1], r2[2]], [n2[1], n2[2]], **case))
+    # the MPhys builder honours every explicitly given option, also a falsy one (compressible=False against its default True)
+    opts = dict(compressible=compressible, write_solution=False)
+    if rng.integers(2):
+        opts["user_specified_Sref"] = False
+    fb = _mphys_builder_loads(surfaces, flow, opts)
+    if relerr(fb, n1[0]) > 1e-9:
+        out.append(_fail("coupling group of the MPhys builder (options %s) does not return the forces of the native AeroPoint(compressible=%s)"
+                         % (opts, compressible), float(np.abs(fb).max()), float(np.abs(n1[0]).max()), Mach_number=flow["Mach_number"], **case))
     r1b = _wrapper_results(w1)                              # the first problem is still alive: re-run it
     if differs(r1b, n1):
         out.append(_fail("a live MPhys-wrapped problem changes its results after another wrapped problem was set up in the same process",
